@@ -78,10 +78,30 @@ AllCollinear(P, big) == \A i \in 1..Len(P) : Col(big, P[1], P[i], P[Len(P)]) /\ 
 \* closed paths: R is the result of a TERMINAL state (nothing removable is left);
 \* open paths: the property only demands that nothing but collinear vertices was removed and
 \* that the end points survive, so R may be the retained path of any reachable state.
-Accepts(P, closed, R) ==
+\* (reference definition: breadth-first over all states from which R is still obtainable)
+AcceptsRef(P, closed, R) ==
   LET big == BigCoords(P) IN
   IF closed /\ R = <<>> /\ Len(P) >= 2 /\ AllCollinear(P, big) THEN TRUE      \* shortcut: everything can be removed
   ELSE \E S \in Levels(P, big, closed, R) :
           /\ ~closed \/ Terminal(P, big, closed, S) \/ Len(P) - Cardinality(S) < 3
           /\ IF closed THEN SameCyclic(ResultOf(P, closed, S), R) ELSE ResultOf(P, closed, S) = R
+
+\* The same, computed through the possible removal sets: a state whose result is R removes exactly a set T with
+\* ResultOf(P, closed, T) = R, removals only grow the set, so T is reachable iff it is reachable through subsets
+\* of itself.  (Equivalent to AcceptsRef; far fewer states, and no sub-sequence test per state.)
+Matches(P, closed, T, R) ==
+  IF closed THEN SameCyclic(ResultOf(P, closed, T), R) ELSE ResultOf(P, closed, T) = R
+ReachSet(P, big, closed, T) ==
+  LET m == Cardinality(T)
+      L[k \in 0..m] == IF k = 0 THEN {{}}
+                       ELSE UNION {{S \cup {i} : i \in {j \in T \ S : Removable(P, big, closed, S, j)}} : S \in L[k - 1]}
+  IN  T \in L[m]
+Accepts(P, closed, R) ==
+  LET big == BigCoords(P)  n == Len(P) IN
+  IF closed /\ R = <<>> /\ n >= 2 /\ AllCollinear(P, big) THEN TRUE
+  ELSE \E T \in SUBSET (1..n) :
+          /\ (IF closed /\ R = <<>> THEN n - Cardinality(T) < 3 ELSE Cardinality(T) = n - Len(R))
+          /\ Matches(P, closed, T, R)
+          /\ ~closed \/ Terminal(P, big, closed, T) \/ n - Cardinality(T) < 3
+          /\ ReachSet(P, big, closed, T)
 =============================================================================
